@@ -116,9 +116,9 @@ impl Check for C23 {
     }
     fn plan(&self, tier: Tier) -> Plan {
         Plan {
-            cases: if tier == Tier::Quick { 20_000 } else { 400_000 },
+            cases: if tier == Tier::Quick { 200_000 } else { 2_000_000 },
             max_tape: 12,
-            shard_cases: if tier == Tier::Quick { 2_500 } else { 25_000 },
+            shard_cases: if tier == Tier::Quick { 12_500 } else { 50_000 },
             exhaustive_shards: 16,
             ..Plan::default()
         }
@@ -492,7 +492,7 @@ impl Check for C25 {
     }
     fn plan(&self, tier: Tier) -> Plan {
         Plan {
-            cases: if tier == Tier::Quick { 16_000 } else { 320_000 },
+            cases: if tier == Tier::Quick { 64_000 } else { 640_000 },
             max_tape: 64,
             shard_cases: if tier == Tier::Quick { 1_000 } else { 1_250 },
             exhaustive_shards: 1,
